@@ -111,6 +111,22 @@ def check(prop, tier, seed):
             sched_counts["sched." + r["tag"]] = sched_counts.get("sched." + r["tag"], 0) + r["report"]["schedules"]
             first = first or r["report"]["first_failure"]
         search[key] = dict(scenario=scenario, schedules=per * 3, failing_schedules=total_fail, first_failure=first)
+    # control scenario: a record that really is Send + Sync, used from three threads by safe code, must
+    # survive every schedule (a failure here is a fault of the machinery, not a verdict)
+    control = None
+    ctl_ok = all(p["rc"] == 0 for p in probes if p["definition"] == "all_send_sync" and p["expect"] == "accept")
+    if ctl_ok:
+        per = max(1, schedules // 6)
+        res = fan_out([dict(cmd=[thrsim, "search", "control", str(seed + i), str(per), kind], tag=kind) for i, kind in enumerate(("random", "pct2"))], timeout=3600)
+        control = dict(schedules=0, failing_schedules=0)
+        for r in res:
+            if r["report"] is None:
+                raise HarnessError("thrsim control scenario failed to run: " + r["stderr"][-500:])
+            control["schedules"] += r["report"]["schedules"]
+            control["failing_schedules"] += r["report"]["failing_schedules"]
+            sched_counts["sched." + r["tag"]] = sched_counts.get("sched." + r["tag"], 0) + r["report"]["schedules"]
+        if control["failing_schedules"]:
+            raise HarnessError("the thread-safe control scenario failed under %d schedules: the schedule machinery is unsound" % control["failing_schedules"])
     exit_code = EXIT_OK
     reported = []
     for key in sorted(findings):
@@ -145,21 +161,22 @@ def check(prop, tier, seed):
     wall = time.time() - t0
     gated = [p for p in probes if p["expect"] != "compile" and p["definition"] not in bad_controls]
     coverage = dict(
-        evaluations=len(probes) + sum(s["schedules"] for s in search.values()),
+        evaluations=len(probes) + sum(s["schedules"] for s in search.values()) + (control["schedules"] if control else 0),
         distinct_nontrivial=len({(p["definition"], p["variant"], p["trait"]) for p in gated}),
         rule=("compile gate: every (definition, variant, trait in {Send, Sync}) of a fixed set of definitions whose variants hold fields lacking Send and/or Sync (reference-counted pointer stub, cell stub, raw pointer, "
               "guard-like type) and all-Send+Sync controls; expected verdict = conjunction over the variant's field types. Schedule search: for every record type accepted although a field lacks the trait, "
               "a 3-thread clone / shared-increment scenario under shuttle's seeded random and PCT schedulers; distinct = distinct (definition, variant, trait)"),
         samples=[dict(definition=p["definition"], variant=p["variant"], trait=p["trait"], fields=p["fields"], expected=p["expect"], rustc="accepted" if p["rc"] == 0 else "rejected") for p in gated[::5]][:6],
         exhaustive=False,
-        gate=gate, schedule_search=search, fault_kinds_fired=sched_counts, pipeline_failures=sorted(bad_controls),
+        gate=gate, schedule_search=search, control_scenario=control, fault_kinds_fired=sched_counts, pipeline_failures=sorted(bad_controls),
         simulated_time="none (no clock); logical steps = compile probes + scheduler runs", runs_per_hour=int((len(probes) + sum(s["schedules"] for s in search.values())) / max(wall - build_s, 1e-3) * 3600),
         real_components=REAL, stub_components=STUBS, findings=reported, build_s=round(build_s, 1),
     )
     write_evidence(prop, tier, seed, "exploration", coverage, wall, sum(1 for r in reported if not r["known"]),
                    ["the deciding observation for 'only if' is the compiler's verdict on trait probes; the schedule search turns an acceptance into an observed, replayable corruption",
                     "the definition set is fixed (6 definitions, 13 variant types), not drawn by seed"])
-    log("SIM-T %s: %d compile probes, %d schedules searched, %d violations, %.1fs" % (prop, len(probes), sum(s["schedules"] for s in search.values()), sum(1 for r in reported if not r["known"]), wall))
+    log("SIM-T %s: %d compile probes, %d schedules searched (+%d of the thread-safe control scenario), %d violations, %.1fs" % (
+        prop, len(probes), sum(s["schedules"] for s in search.values()), control["schedules"] if control else 0, sum(1 for r in reported if not r["known"]), wall))
     return exit_code
 
 
